@@ -161,7 +161,7 @@ def write_replay(prop: str, meta, ent: Dict[str, Any], mini: Dict[str, Any], key
         "log_digest": mini.get("digest"),
     }
     with open(path, "w") as f:
-        json.dump(doc, f, indent=1, sort_keys=True)
+        json.dump(doc, f, indent=1, sort_keys=True, default=str)
     return path
 
 
@@ -274,14 +274,16 @@ def check(prop: str, tier: str, batch_seed: int, repo: str, workers: int = 16,
                       f"[signature={json.dumps(e['signature'], sort_keys=True)} "
                       f"occurrences_in_this_run={cnt}]", flush=True)
         focus = os.environ.get("VERIF_FOCUS")
-        if focus:
-            new_viols.sort(key=lambda kv: (focus not in kv[0], kv[0]))
+        prio = getattr(meta, "replay_priority", None)
+        # classes whose trace carries its own history (and therefore replays in a fresh interpreter) first
+        new_viols.sort(key=lambda kv: ((focus not in kv[0]) if focus else False,
+                                       prio(kv[1].get("trace")) if prio and kv[1].get("trace") else 0, kv[0]))
         replays: List[str] = []
         unconfirmed: List[str] = []
         reported_keys = set()
         max_report = M.get("max_reports", 6)
-        for key, ent in new_viols[:max_report + 4]:
-            if len(replays) >= max_report:
+        for key, ent in new_viols[:max_report + 14]:
+            if len(replays) >= max_report or (len(unconfirmed) >= 8 and not replays and len(unconfirmed) >= 14):
                 break
             pi = ent["pool"]
             if ent.get("trace") is None:
@@ -335,7 +337,7 @@ def check(prop: str, tier: str, batch_seed: int, repo: str, workers: int = 16,
             if not new_viols and not known_hits:
                 raise HarnessError("outcomes depend on process history but no run reported a violation: "
                                    f"{total['cross_conflicts'][:5]}")
-        total["new_violation_classes"] = len(replays) + max(0, len(new_viols) - (max_report + 4)) if replays else 0
+        total["new_violation_classes"] = len(replays) + max(0, len(new_viols) - (max_report + 14)) if replays else 0
         total["unconfirmed_classes"] = len(unconfirmed)
         total["known_hits"] = {known[n]["what"]: c for n, c in known_hits.items()}
     except HarnessError as e:
